@@ -595,12 +595,55 @@ impl Callbacks for Cb {
                         for f in v.fields.iter() {
                             let fty = tcx.type_of(f.did).instantiate_identity().skip_norm_wip();
                             let (outer, core) = adt_of(tcx, fty);
+                            // instantiated fields of the struct this field refers to (after peeling Rc/Box/Vec/Option/&)
+                            let mut peeled = fty;
+                            for _ in 0..6 {
+                                match peeled.kind() {
+                                    ty::Ref(_, inner, _) => peeled = *inner,
+                                    ty::Adt(d, a) if a.len() > 0 && matches!(
+                                        dpath(tcx, d.did()).as_str(),
+                                        "alloc::rc::Rc" | "alloc::boxed::Box" | "alloc::vec::Vec" | "core::option::Option"
+                                    ) => {
+                                        if let Some(i) = a.types().next() { peeled = i; } else { break; }
+                                    }
+                                    _ => break,
+                                }
+                            }
+                            let mut inst = Vec::new();
+                            if let ty::Adt(d2, a2) = peeled.kind() {
+                                if d2.is_struct() && d2.did().is_local() {
+                                    for f2 in d2.non_enum_variant().fields.iter() {
+                                        let t2 = f2.ty(tcx, a2);
+                                        let (_, c2) = adt_of(tcx, t2);
+                                        let mut p2 = t2;
+                                        for _ in 0..6 {
+                                            match p2.kind() {
+                                                ty::Ref(_, inner, _) => p2 = *inner,
+                                                ty::Adt(d, a) if a.len() > 0 && matches!(
+                                                    dpath(tcx, d.did()).as_str(),
+                                                    "alloc::rc::Rc" | "alloc::boxed::Box" | "alloc::vec::Vec" | "core::option::Option"
+                                                ) => {
+                                                    if let Some(i) = a.types().next() { p2 = i; } else { break; }
+                                                }
+                                                _ => break,
+                                            }
+                                        }
+                                        inst.push(J::obj(vec![
+                                            ("name", J::Str(f2.name.to_string())),
+                                            ("ty", J::Str(ty_str(t2))),
+                                            ("core", c2.map(J::Str).unwrap_or(J::Null)),
+                                            ("is_param", J::Bool(matches!(p2.kind(), ty::Param(_)))),
+                                        ]));
+                                    }
+                                }
+                            }
                             fs.push(J::obj(vec![
                                 ("name", J::Str(f.name.to_string())),
                                 ("ty", J::Str(ty_str(fty))),
                                 ("adt", outer.map(J::Str).unwrap_or(J::Null)),
                                 ("core", core.map(J::Str).unwrap_or(J::Null)),
-                                ("is_param", J::Bool(matches!(fty.kind(), ty::Param(_)))),
+                                ("is_param", J::Bool(matches!(peeled.kind(), ty::Param(_)))),
+                                ("inst", J::Arr(inst)),
                             ]));
                         }
                         vs.push(J::obj(vec![("name", J::Str(v.name.to_string())), ("fields", J::Arr(fs))]));
